@@ -153,7 +153,8 @@ def run_scenario(sc, peer_factory=None, inv_factory=None, quiesce=True) -> Run:
             peer.payload_fn = lambda req, n, b=sc["const_payload"]: bytes([b]) * (2 * req["count"])
     else:
         peer = ScriptedPeer(HOST, sc["framing"], [tuple(s) if isinstance(s, list) else s for s in sc.get("script", [])],
-                            T, after=sc.get("after", "drop"))
+                            T, after=sc.get("after", "drop"),
+                            **({"aa55_payload": bytes.fromhex(sc["aa55_payload"])} if sc.get("aa55_payload") else {}))
     run.peer = peer
     peer.default_hops = int(sc.get("hops", 0))
     vnow = 0.0
